@@ -6,6 +6,10 @@ TECH = "bounded exhaustive enumeration (stateless explicit-state exploration of 
 
 # property -> (category, text, note, technique)
 CHECKS = {
+ "C17": ("model_checking",
+  "Explicit enumeration of ALL gz operation sequences up to depth 3 (4): read side over 19 operations on 16 files (members, member boundary at every offset of an 8-byte buffer, garbage suffix, plain, empty, truncated, header fields) x 4 buffer sizes; write side over 14-17 operations x 4 modes (w, w9h, wT, a) x 2 buffer sizes. Oracles: the logical-stream reference model R5 (bytes, return values, gztell) on well-formed files, R2+R3 decoding of the written file to exactly the logical stream, reading it back, and the same sequence on zlib-ng's gz layer compared call by call. Fresh heap memory is garbage-filled during gz runs so that reads of uninitialised memory are deterministic.",
+  "Trusted: R5/R2/R3; zlib-ng's gz layer as tie-breaker (model/implementation disagreements where zlib-ng sides with zlib-rs are counted as model_divergence, currently 0). gzprintf and deeper sequences are not covered.",
+  "explicit enumeration of operation sequences against a reference model and lock-step against the reference implementation"),
  "C07": ("model_checking",
   "Bounded exhaustive enumeration of (all 9450 configurations x boundary input lengths x worst-case patterns) plus edge configurations at 64 KiB / 200 KB, all strings over 4 symbols up to length 4 (6), gzip header lattices and preset dictionaries: deflateBound is queried on the configured stream, the output buffer has exactly that size with a guard page behind it, and one deflate(Z_FINISH) must return Z_STREAM_END. compress/compress2/compress_slice into compressBound likewise.",
   "The bound is a claim over all inputs of a length; the patterns are the known worst cases (incompressible, flat, 9-bit literals, alternating). Known finding F5 (exact fit on raw streams returns Z_OK; shared with zlib-ng) is reported as KNOWN-FINDING.",
